@@ -1185,6 +1185,10 @@ func calleeName(c *ssa.CallCommon) string {
 	if n, ok := c.Value.Type().(*types.Named); ok {
 		return n.Obj().Name()
 	}
+	// a function value held in a local variable that is assigned on several paths (a phi): named after the variable
+	if ph, ok := c.Value.(*ssa.Phi); ok && ph.Comment != "" {
+		return ph.Comment
+	}
 	// a function value of unnamed type loaded from a struct field: the event is named after the field
 	if u, ok := c.Value.(*ssa.UnOp); ok && u.Op == token.MUL {
 		if fa, ok := u.X.(*ssa.FieldAddr); ok {
@@ -1589,4 +1593,40 @@ func (in *Inst) selectEvent(x *ssa.Select, st *State) {
 		args = append(args, s.Chan)
 	}
 	in.pseudoEvent("select", x, args, st)
+}
+
+// selectAfter: `ghostset after select: g = resultN` - result0 is the index of the case that fired, result1 whether
+// a receive got a value, result(2+k) the value received by the k-th receive case.
+func (in *Inst) selectAfter(x *ssa.Select, st *State) {
+	if st.reach == "false" {
+		return
+	}
+	var cons []*Contract
+	if in.con != nil {
+		cons = append(cons, in.con)
+	}
+	if top := in.e.top; top != nil && top != in && top.con != nil && top.con != in.con {
+		cons = append(cons, top.con)
+	}
+	v, ok := in.vals[x]
+	if !ok {
+		return
+	}
+	for _, con := range cons {
+		for _, gu := range con.Ghosts {
+			if gu.Callee != "select" || gu.Before {
+				continue
+			}
+			env := in.newEnv(st)
+			env.atBlock = x.Block()
+			env.atIdx = instrIndex(x) + 1
+			env.vars["result"] = v
+			if v.K == KStruct {
+				for i, f := range v.Fs {
+					env.vars[fmt.Sprintf("result%d", i)] = f
+				}
+			}
+			in.ghostAssign(gu, env, env.eval(gu.Expr), st)
+		}
+	}
 }
